@@ -89,7 +89,16 @@ def c10(ctx):
             ctx.gotest("cc", "^TestVerifC10Mux$", race=True, timeout=3000, label="cc-c10-gomaxprocs%s" % gm, env={"GOMAXPROCS": gm, "VERIF_PARTSUFFIX": gm})
 
 
+def c11(ctx):
+    ctx.gotest("cc", "^TestVerifC11", race=True, timeout=3000)
+
+
 SPECS = {
+    "C11": {"fn": c11, "level": "fault_enumeration",
+            "technique": "runtime monitoring under the race detector: fault enumeration over the real runTestCasesForServer with a scripted server process (every byte-offset truncation of its response, write/close errors, exit after k sends, stall) and a scripted client runner; oracle over results.outcomes at quiescence",
+            "text": "The real runTestCasesForServer is run against scripted processStarter/process/clientRunner objects; server faults are enumerated over every position (each byte offset of the response, each k of n sends, each stdin offset sampled) and combined with client faults and answer kinds delivered before, during and after the server's death; the oracle checks one outcome per case, verdict preservation for answered cases (token-tagged), setup errors for the rest, abort on every started process, stderr attribution and bounded termination.",
+            "note": "Checked at quiescence (the call returned and every accepted callback fired - the server-death path returns without waiting for in-flight requests); an empty but well-formed server response is not treated as a fault.",
+            "assumptions": ["progress bound 75 s", "the scripted client runner fires each accepted callback exactly once, as C10 establishes for the real one"]},
     "C10": {"fn": c10, "level": "fault_enumeration",
             "technique": "runtime monitoring under the race detector: offline exactly-once checker over recorded histories (send returns, client reads/writes with unique answer tokens, callbacks) of the real client multiplexer driven by a scripted hostile client with injected delays; every byte-offset cut of answer streams",
             "text": "The real clientProcessRunner (runClient over runInProcess, real io.Pipe plumbing) is driven by 1-4 concurrent senders and a scripted client that reorders, omits, duplicates, garbles, truncates (after every byte offset), oversizes, stops reading, answers early, exits or stalls; the recorded history is checked for: exactly one callback per accepted request with the token of the client's first complete answer or an error, no callback for refused sends, refusal of late sends, isRunning()==false, termination within the progress bound, no data race.",
